@@ -503,6 +503,16 @@ pub fn eval_in_child(scn: &dyn Scenario, plan: &Value, seed: u64, run: u64) -> E
     let start = Instant::now();
     let limit = Duration::from_secs(scn.watchdog_s());
     let mut timed_out = false;
+    // The output is read while the child runs: a child that reports many violations or a long journal
+    // fills the pipe, and waiting for its exit first would block it until the watchdog fires.
+    let reader = child.stdout.take().map(|mut so| {
+        std::thread::spawn(move || {
+            use std::io::Read;
+            let mut out = String::new();
+            let _ = so.read_to_string(&mut out);
+            out
+        })
+    });
     let status = loop {
         match child.try_wait() {
             Ok(Some(s)) => break Some(s),
@@ -518,11 +528,7 @@ pub fn eval_in_child(scn: &dyn Scenario, plan: &Value, seed: u64, run: u64) -> E
             Err(_) => break None,
         }
     };
-    let mut out = String::new();
-    if let Some(mut so) = child.stdout.take() {
-        use std::io::Read;
-        let _ = so.read_to_string(&mut out);
-    }
+    let out = reader.and_then(|h| h.join().ok()).unwrap_or_default();
     let _ = std::fs::remove_file(&path);
     let mut res = EvalResult {
         violations: Vec::new(),
